@@ -355,16 +355,26 @@ func workerCorpus() [][]WEv {
 // system level: real workers behind the real dispatcher
 
 type sysScenario struct {
-	Kind    string `json:"kind"` // idle|hard
+	Kind    string `json:"kind"` // idle|hard | noise|progress (timed family, timed.go)
 	Peers   int    `json:"peers"`
 	First   int    `json:"first"`   // requests in the batch that times out
 	Later   []int  `json:"later"`   // sizes of the batches submitted afterwards
 	Verdict string `json:"verdict"` // observed verdict of the first batch
 	Served  []bool `json:"served"`
+	// timed family
+	JobTimeoutMs int `json:"jobtimeoutms,omitempty"`
+	ChatterMs    int `json:"chatterms,omitempty"`
+	MovedAfterMs int `json:"movedafterms,omitempty"` // observed: request reached the honest peer
+	DoneAfterMs  int `json:"doneafterms,omitempty"`  // observed: verdict
+	MaxGapMs     int `json:"maxgapms,omitempty"`     // observed: largest gap between two chatter messages
 }
 
 func runSystem(h *History) {
 	sc := h.System
+	if sc.Kind == "noise" || sc.Kind == "progress" {
+		runTimed(h)
+		return
+	}
 	fail := func(step int, what string) {
 		if h.Failure == "" {
 			h.Failure, h.FailStep = what, step
